@@ -280,10 +280,26 @@ def correspond_datagrams(ctx):
                           "to 1000: (1) the datagram the serializer produces decodes to the same name, extra bytes and body; (2) its encoded "
                           "part expands under the independent reference to exactly the un-zero-coded datagram; (3) every non-canonical "
                           "re-encoding of that part (split runs, wrap-around forms, trailing lone zero) decodes to the same observation as "
-                          "the un-zero-coded datagram; non-trivial = datagrams whose header area (message number + extra) contains a zero run")
+                          "the un-zero-coded datagram; every third message is preceded, on the SAME serializer object, by a zero-coded message "
+                          "that is rejected part-way through its body with a zero run open (nothing may be left behind); "
+                          "non-trivial = datagrams whose header area (message number + extra) contains a zero run")
     ser, de = _codec()
     n = nt = 0
+    from hippolyzer.lib.base.message.message import Message, Block
+    from hippolyzer.lib.base.datatypes import UUID
+    k = 0
     for m in datagram_cases(ctx):
+        k += 1
+        if k % 3 == 0:
+            # the SAME serializer first fails on a zero-coded message part-way through its body, with a zero run open (16 zero bytes
+            # of AgentID written, then an unset variable): a rejected message must leave nothing behind for the next one
+            bad = Message("ChatFromViewer", Block("AgentData", AgentID=UUID(int=0), SessionID=None),
+                          Block("ChatData", Message=b"x", Type=0, Channel=0), flags=0x80, packet_id=1)
+            try:
+                ser.serialize(bad)
+                res.impl_violations.append({"clause": "serializer rejects a message with an unset variable", "class": "unset-variable-accepted"})
+            except Exception:
+                pass
         try:
             want_extra = bytes(m.extra or b"")
             d = bytes(ser.serialize(m))
@@ -358,6 +374,12 @@ def shrink(compress, expand, v):
 
 
 def replay(ctx, case):
+    if "input" not in case:
+        r = correspond_datagrams(ctx)
+        for v in r.impl_violations:
+            if v.get("class") == case.get("class"):
+                return True, v
+        return (True, r.impl_violations[0]) if r.impl_violations else (False, "zero-coded datagrams decode like the reference")
     compress, expand = _impl()
     v = check_property(compress, expand, bytes.fromhex(case["input"]))
     return (v is not None), (v or "holds")
